@@ -4,7 +4,11 @@ Lean: Edn.Properties.C06 (the scan stops exactly at the closing quote of a spell
 the escape flag; decoding yields exactly the denoted bytes; undefined escapes are an
 access-time error).  Correspondence: string literals through reader / string accessors, real
 code vs model.  Oracle: a Python decoder for the documented escapes of each configuration;
-every string is fetched twice (pointer and length must be stable, byte after the end NUL)."""
+every string is fetched twice (pointer and length must be stable, byte after the end NUL).
+Lifetimes: the same literal read as several documents, fetched / hashed / compared / looked up across
+the documents in every order, one document freed, unrelated documents read into the freed memory, the
+survivors fetched again (exact bytes, terminator, same pointer, same hash, helpers agree) - sanitised
+and plain -O2 builds, real library against the Python decoder."""
 import itertools
 import json
 
@@ -122,6 +126,196 @@ def literals(tier, rng, cfg):
         body = b"".join(rng.choice([b"a", b"\\\"", b"\\\\", b"\\n", b"\\t", b"\\r", b"\\f", b"\\b", b"\\u00e9", b"\\u4e2d", b"\\ud800", b"\\u12", b"\\7", b"\\18",
                                     b"\\377", b"\\400", b"\x00", b"\xff", b"\\x", b" ", b"\n"]) for _ in range(n))
         out.append(b"\"" + body + b"\"")
+    return out
+
+
+def sgw(dec):
+    return "ERR" if dec is None else "%d:%s" % (len(dec), C.hexs(dec))
+
+
+class Script:
+    """A `Q` line under construction with the expected output of each token (None = any) and pairs of tokens whose
+    outputs must be the same whatever they are."""
+
+    def __init__(self, family):
+        self.family = family
+        self.toks, self.want, self.same, self.last = [], [], [], {}
+
+    def add(self, tok, want=None):
+        self.toks.append(tok)
+        self.want.append(want)
+        return len(self.toks) - 1
+
+    def hash(self, path):
+        """the hash of a live value never changes: every h of one path must print what the first one printed"""
+        i = self.add("h:" + path)
+        if path in self.last:
+            self.same.append((self.last[path], i))
+        else:
+            self.last[path] = i
+
+    def line(self):
+        return "Q " + " ".join(self.toks)
+
+
+SHAPES = {
+    # name: (document around the literal, path of the literal below the register, container probes)
+    "bare": (lambda lit: lit, "", ()),
+    "vec": (lambda lit: b"[" + lit + b" 1]", ".0", ()),
+    "mapkey": (lambda lit: b"{" + lit + b" 1 :z 2}", ".0", ("lk", "ck")),
+    "mapval": (lambda lit: b"{:k " + lit + b"}", ".1", ()),
+    "set": (lambda lit: b"#{" + lit + b"}", ".0", ("sc",)),
+    "nested": (lambda lit: b"[[0 " + lit + b"] nil]", ".0.1", ()),
+}
+
+
+def lifetime_contents(tier, rng, cfg):
+    """literal contents for the several-documents family: every escape kind of the build at the start, in the middle and
+    at the end of bodies whose decoded size crosses the allocation granules, plain bodies, NUL bytes, undecodable ones"""
+    kinds = [b"\\n", b"\\t", b"\\r", b"\\\\", b"\\\""]
+    if cfg in ("clj", "both"):
+        kinds += [b"\\u0041", b"\\u00e9", b"\\u20ac", b"\\101", b"\\7", b"\\f", b"\\b", b"\\u0000"]
+    letters = b"abcdefghijklmnopqrstuvwxyz0123456789 ABCDEFGHIJKLMNOPQRSTUVWXYZ-_.,;"
+    sizes = [0, 1, 3, 7, 8, 15, 16, 17, 31, 50, 100, 300] if tier == "thorough" else [0, 3, 7, 16, 50, 300]
+    out = []
+    for n in sizes:
+        body = (letters * 5)[:n]
+        for esc in (kinds if tier == "thorough" else rng.sample(kinds, 3)):
+            pos = rng.choice([0, n // 2, n])
+            out.append(body[:pos] + esc + body[pos:])
+        out.append(body[:n // 2] + rng.choice(kinds) + body[n // 2:] + rng.choice(kinds) * 2)
+    for n in (0, 1, 5, 16, 40, 300):
+        out.append((letters * 5)[:n])                       # no escape: the zero-copy path and its terminated copy
+    out.append(b"ab\x00cd\\n")                               # raw NUL next to an escape
+    out.append(b"\x00")
+    out.append(b"caf\xc3\xa9 \\t\xe4\xb8\xad")
+    out.append(b"bad \\q escape")                            # undecodable in every build: ERR before and after
+    out.append(b"\\u12 short" if cfg in ("clj", "both") else b"\\u0041 not here")
+    return out
+
+
+def lifetimes(tier, rng, cfg):
+    """Scripts over several live documents holding the same literal (see the module text).  Returns Script objects."""
+    out = []
+    thorough = tier == "thorough"
+    contents = lifetime_contents(tier, rng, cfg)
+    pairs = [("bare", "bare"), ("vec", "vec"), ("mapkey", "bare"), ("bare", "mapkey"), ("set", "vec"), ("mapval", "set"),
+             ("nested", "mapval"), ("mapkey", "mapkey"), ("set", "set")]
+    presets = [()]
+    for k in (1, 2, 3, 4):
+        presets += list(itertools.combinations(("sg:a", "sg:b", "h:a", "h:b"), k))
+    presets += [("sg:b", "sg:a"), ("h:b", "sg:a"), ("se:a",), ("se:b", "sg:b"), ("sg:a", "sg:a")]
+
+    def filler(s, probe_len, regs, free_some=True):
+        # unrelated documents of the same decoded size come and go: whatever was released is handed out again
+        for j, k in enumerate(regs):
+            body = bytes([0x41 + (j * 7 + i) % 26 for i in range(max(0, probe_len - 1))])
+            s.add("r%d=%s" % (k, C.hexs(b"\"" + body + b"\\n\"")), "ok")
+            s.add("sg:%d" % k, sgw(body + b"\n"))
+            if free_some and j % 2 == 1:
+                s.add("f:%d" % k, "freed")
+
+    def after(s, path, lit, dec, cstr, fresh):
+        # what the property promises for a live value, asked again
+        s.add("sg:" + path, sgw(dec))
+        s.add("sg:" + path, sgw(dec))
+        s.add("se:%s:%s" % (path, C.hexs(cstr)), "1" if dec is not None and dec == cstr else "0")
+        if b"\x00" not in cstr:
+            s.add("se:%s:%s" % (path, C.hexs(cstr + b"x")), "0")
+        s.hash(path)
+        s.add("r%d=%s" % (fresh, C.hexs(lit)), "ok")
+        s.add("e:%s:%d" % (path, fresh), "1" if dec is not None else None)
+        s.add("e:%d:%s" % (fresh, path), "1" if dec is not None else None)
+        s.add("sg:%d" % fresh, sgw(dec))
+        s.add("sg:" + path, sgw(dec))
+
+    for content in contents:
+        lit = b"\"" + content + b"\""
+        dec = py_decode(content, cfg)
+        probe = dec if dec is not None else content
+        cstr = probe.split(b"\x00")[0]
+        yes = "1" if dec is not None else None
+        # --- two documents -------------------------------------------------------------------------------------
+        for sa, sb in [pairs[0]] + rng.sample(pairs[1:], 4 if thorough else 3):
+            pa, pb = "0" + SHAPES[sa][1], "1" + SHAPES[sb][1]
+            links = [["e:%s:%s" % (pa, pb)], ["e:%s:%s" % (pb, pa)], ["c:%s:%s" % (pa, pb), "e:%s:%s" % (pa, pb)]]
+            if sa == sb:
+                links.append(["e:0:1"])
+            for op in SHAPES[sa][2]:
+                links.append(["%s:0:%s" % (op, pb)])
+            for op in SHAPES[sb][2]:
+                links.append(["%s:1:%s" % (op, pa)])
+            links.append([t for l in links for t in l])
+            combos = [(pre, link, victim) for pre in presets for link in links for victim in (0, 1, None)]
+            # a sample of the product per literal and shape pair (the whole product is covered many times over across the
+            # literals), plus always: nothing / one side / the other side / both fetched before the plain comparison
+            combos = rng.sample(combos, 40 if thorough else 25) + [(pre, links[0], v) for pre in ((), ("sg:a",), ("sg:b",), ("sg:a", "sg:b"), ("h:a",)) for v in (0, 1)]
+            for pre, link, victim in combos:
+                s = Script("two-documents")
+                s.add("r0=" + C.hexs(SHAPES[sa][0](lit)), "ok")
+                s.add("r1=" + C.hexs(SHAPES[sb][0](lit)), "ok")
+                for t in pre:
+                    op, who = t.split(":")
+                    path = pa if who == "a" else pb
+                    if op == "sg":
+                        s.add("sg:" + path, sgw(dec))
+                    elif op == "h":
+                        s.hash(path)
+                    else:
+                        s.add("se:%s:%s" % (path, C.hexs(cstr)), "1" if dec is not None and dec == cstr else "0")
+                for t in link:
+                    op = t.split(":")[0]
+                    s.add(t, {"e": yes, "ck": yes, "sc": yes, "lk": "(int 1)" if dec is not None else None}.get(op))
+                if rng.random() < 0.3:
+                    s.add("sg:" + rng.choice([pa, pb]), sgw(dec))
+                if victim is not None:
+                    s.add("f:%d" % victim, "freed")
+                filler(s, len(probe), (4, 5, 6, 7))
+                for k, path in ((0, pa), (1, pb)):
+                    if k != victim:
+                        after(s, path, lit, dec, cstr, 8 + k)
+                out.append(s)
+        # --- three documents: what one value learnt from a second is passed on to a third -------------------------------
+        chains = [(pre, order, keep) for pre in ((), ("sg:0",), ("sg:1",), ("sg:2",), ("h:0", "sg:0"), ("sg:0", "sg:2"))
+                  for order in (("e:0:1", "e:1:2"), ("e:1:2", "e:0:1"), ("e:0:1", "e:0:2"), ("e:2:1", "e:1:0", "e:0:2"))
+                  for keep in (0, 1, 2)]
+        for pre, order, keep in rng.sample(chains, 30 if thorough else 10):
+            s = Script("three-documents")
+            for k in range(3):
+                s.add("r%d=%s" % (k, C.hexs(lit)), "ok")
+            for t in pre:
+                if t.startswith("sg"):
+                    s.add(t, sgw(dec))
+                else:
+                    s.hash(t.split(":")[1])
+            for t in order:
+                s.add(t, yes)
+            gone = [k for k in range(3) if k != keep]
+            rng.shuffle(gone)
+            s.add("f:%d" % gone[0], "freed")
+            filler(s, len(probe), (4, 5))
+            s.add("f:%d" % gone[1], "freed")
+            filler(s, len(probe), (6, 7, 9))
+            after(s, str(keep), lit, dec, cstr, 8)
+            out.append(s)
+        # --- the literal twice in each of two documents ------------------------------------------------------------------
+        twice = [(pre, link, victim) for pre in ((), ("sg:0.0",), ("sg:0.1",), ("sg:1.1",), ("sg:0.0", "sg:1.1"))
+                 for link in (("e:0.0:0.1",), ("e:0:1",), ("e:0.0:0.1", "e:0:1"), ("e:0.1:1.0", "e:1.0:1.1"))
+                 for victim in (0, 1)]
+        for pre, link, victim in rng.sample(twice, 15 if thorough else 6):
+            s = Script("twice-per-document")
+            doc = b"[" + lit + b" " + lit + b"]"
+            s.add("r0=" + C.hexs(doc), "ok")
+            s.add("r1=" + C.hexs(doc), "ok")
+            for t in pre:
+                s.add(t, sgw(dec))
+            for t in link:
+                s.add(t, yes)
+            s.add("f:%d" % victim, "freed")
+            filler(s, len(probe), (4, 5, 6, 7))
+            after(s, "%d.0" % (1 - victim), lit, dec, cstr, 8)
+            after(s, "%d.1" % (1 - victim), lit, dec, cstr, 9)
+            out.append(s)
     return out
 
 
@@ -251,6 +445,54 @@ def run(tier):
                     rep.finding("history", "after history %s: %s gave %s, expected %s" % (list(hist), op[:10], t[:60], want[:60]),
                                 {"kind": "script", "config": cfg, "line": scripts[i], "observed": a[:300]})
                     break
+        # several live documents: get / equal / hash / lookup across documents, one freed, the others used afterwards
+        life = lifetimes(tier if cfg in ("core", "clj") else "quick", rng, cfg)
+        llines = [s.line() for s in life]
+        for s in life:
+            rep.count("lifetimes/%s/%s" % (s.family, cfg))
+        for mode in ("san", "o2"):
+            # a spread-out fiftieth first: when that already crashes the rest would only repeat it, one restart per script
+            first = [i for i in range(len(llines)) if i % 50 == 0]
+            rest = [i for i in range(len(llines)) if i % 50 != 0]
+            louts, lcrashes = [None] * len(llines), []
+            for stage in (first, rest):
+                if lcrashes:
+                    rep.count("lifetime-scripts-not-run-after-crashes/%s-%s" % (cfg, mode), len(stage))
+                    break
+                o, c = K.run_impl(cfg, [llines[i] for i in stage], mode=mode)
+                for i, x in zip(stage, o):
+                    louts[i] = x
+                lcrashes += [(stage[j], rc, err) for j, rc, err in c if 0 <= j < len(stage)]
+                rep.count("lifetime-scripts/%s-%s" % (cfg, mode), len(stage))
+            for idx, rc, err in lcrashes:
+                found = True
+                head = next((l for l in err.split("\n") if "ERROR" in l or "runtime error" in l), err.strip().split("\n")[0] if err.strip() else "")
+                rep.finding("lifetime/crash", "a string of a live document was used after another document had been freed (%s): %s" % (life[idx].family, head[:160]),
+                            {"kind": "script", "config": cfg, "mode": mode, "line": llines[idx], "stderr": err[-2500:]})
+            for s, a in zip(life, louts):
+                if a is None:
+                    continue
+                t = a.split("\t")
+                bad = None
+                if len(t) != len(s.toks):
+                    bad = "%d results for %d operations" % (len(t), len(s.toks))
+                else:
+                    for i, w in enumerate(s.want):
+                        if w is not None and t[i] != w:
+                            bad = "operation %d (%s) gave %s, expected %s" % (i, s.toks[i][:24], t[i][:80], w[:80])
+                            break
+                    else:
+                        for i, j in s.same:
+                            if t[i] != t[j]:
+                                bad = "%s gave %s at first and %s later" % (s.toks[i], t[i], t[j])
+                                break
+                if bad:
+                    found = True
+                    cls = "unstable" if "UNSTABLE" in bad else ("noterm" if "NOTERM" in bad else "content")
+                    rep.finding("lifetime/" + cls, "%s, %s build: %s" % (s.family, mode, bad),
+                                {"kind": "script", "config": cfg, "mode": mode, "line": s.line(), "expected": "\t".join(w if w is not None else "*" for w in s.want),
+                                 "observed": a[:1500]})
+        rep.note_cases(len(llines), set(C.sha(l)[:16] for l in llines))
         rep.note_cases(len(docs) + len(scripts), set(C.sha(d)[:16] for d in docs), sample={"doc": docs[50].decode("latin-1")})
     U.finish_proof(rep, lean, found)
 
@@ -258,7 +500,7 @@ def run(tier):
 def replay(path):
     r = json.load(open(path))
     print(json.dumps(r, indent=1)[:2500])
-    exe = C.harness("unity", r["config"], "san")
+    exe = C.harness("unity", r["config"], r.get("mode", "san"))
     line = r["line"] if r.get("kind") == "script" else K.read_lines([bytes.fromhex(r["input_hex"])])[0]
     out = C.run_lines(exe, [line])
     print("now:", out.outputs, "| expected:", r.get("expected"))
